@@ -413,6 +413,9 @@ cfg_for(const scenario *sc, tp_cfg *cc, tp_cfg *sv, uint16_t *suite_buf, vf_rng 
 	cc->vmin = 0x0301; cc->vmax = sc->version;
 	sv->vmin = 0x0301; sv->vmax = 0x0303;
 	sv->keykind = keykind;
+	/* TLS 1.1 scenarios carry two-certificate chains (leaf + intermediate) where the fixtures have them: RSA-signed
+	   server certificates, the RSA client certificate */
+	if (sc->version == 0x0302) { sv->chain_kind = 1; cc->chain_kind = 1; }
 	cc->layout = sv->layout = TP_LAYOUT_SPLIT2;
 	cc->buflen = sv->buflen = 4096 + 325; cc->buflen_out = sv->buflen_out = 4096 + 85;
 	sv->buflen = BR_SSL_BUFSIZE_INPUT; sv->buflen_out = BR_SSL_BUFSIZE_OUTPUT;
@@ -563,16 +566,16 @@ done:
 	o->applied = R.fault_applied;
 	if (R.p.c.xw) {
 		const br_x509_certificate *ch = NULL;
+		size_t chn = 1, q;
 		o->validator_calls = R.p.c.xw->n_end_chain; o->validator_verdict = (int)R.p.c.xw->last_verdict;
 		snprintf(o->vname, sizeof o->vname, "%s", R.p.c.xw->server_name);
-		switch (R.p.s.cfg.keykind) {
-		case TP_KEY_RSA: ch = tp_fx.ch_srv_rsa; break;
-		case TP_KEY_ECEC: ch = tp_fx.ch_srv_ecec; break;
-		case TP_KEY_ECRSA: ch = tp_fx.ch_srv_ecrsa; break;
-		default: ch = tp_fx.ch_weak_rsa; break;
+		ch = tp_chain_pick(1, R.p.s.cfg.keykind, 0, R.p.s.cfg.use_ec384, R.p.s.cfg.chain_kind, &chn);
+		o->chain_ok = (size_t)R.p.c.xw->n_start_cert == chn;
+		for (q = 0; o->chain_ok && q < chn; q ++) {
+			o->chain_ok = R.p.c.xw->cert_len[q] == ch[q].data_len
+				&& R.p.c.xw->cert_hash[q] == vf_fnv(ch[q].data, ch[q].data_len, 0);
 		}
-		o->chain_ok = R.p.c.xw->n_start_cert == 1 && R.p.c.xw->cert_len[0] == ch->data_len
-			&& R.p.c.xw->cert_hash[0] == vf_fnv(ch->data, ch->data_len, 0);
+		if (o->chain_ok && chn > 1) vf_stat("multi_certificate_chains_seen_by_validator", 1);
 	}
 	{
 		int i2, seen11 = 0;
